@@ -173,7 +173,8 @@ pvf_read_header (SF_PRIVATE *psf)
 				return SFE_PVF_BAD_BITWIDTH ;
 		} ;
 
-	psf->dataoffset = psf_ftell (psf) ;
+	psf->dataoffset = psf->header.indx ;
+	psf_fseek (psf, psf->dataoffset, SEEK_SET) ;
 	psf_log_printf (psf, " Data Offset : %D\n", psf->dataoffset) ;
 
 	psf->endian = SF_ENDIAN_BIG ;
